@@ -110,6 +110,9 @@ class FnContract:
     assumed_ensures: List[Clause] = field(default_factory=list)
     ghost_on_raise: Dict[str, List[str]] = field(default_factory=dict)
     model_opts: Dict[str, Any] = field(default_factory=dict)
+    # postconditions that are NOT proved: used only as the oracle of the bounded native falsifier
+    # (pure functions); reported as a bounded stand-in, never counted as discharged
+    oracle_ensures: List[Clause] = field(default_factory=list)
 
 
 class Registry:
@@ -188,6 +191,7 @@ class Registry:
         ghost_on_raise: Optional[Dict[str, List[str]]] = None,
         inline: bool = False,
         model_opts: Optional[Dict[str, Any]] = None,
+        oracle_ensures: Optional[List[ClauseSrc]] = None,
     ) -> FnContract:
         short = qualname.split(":")[1]
         rc: Dict[str, List[Clause]] = {}
@@ -224,6 +228,7 @@ class Registry:
             ghost_on_raise=dict(ghost_on_raise or {}),
             inline=inline,
             model_opts=dict(model_opts or {}),
+            oracle_ensures=mk_clauses(f"{short}.oracle", oracle_ensures, props),
         )
         for lo in f.loops.values():
             lo["invariant"] = mk_clauses(f"{short}.loopinv", lo.get("invariant"), props)
